@@ -10,6 +10,7 @@ NOTE: no `from __future__ import annotations` here — step annotations must be
 real type objects.
 """
 import asyncio
+import dataclasses
 import hashlib
 import types
 import typing
@@ -268,6 +269,8 @@ async def _run_acts(ctx, ev, sp, prog, att, v, uid, bid):
             r.add("collect", step=step, bid=bid, uid=uid, buf=buf or "default", etype=type(ev).__name__,
                   got=None if got is None else [[type(x).__name__, x.get("uid", None), x.get("v", None)] for x in got])
             if got is None:
+                if act.get("cont"):
+                    continue   # this invocation goes on to feed another buffer
                 return None
             local["collected"] = got
         elif k == "wait":
@@ -398,6 +401,23 @@ class HostilePolicy:
         return 0.0
 
 
+@dataclasses.dataclass
+class DataclassPolicy:
+    """the same user policy written as a plain @dataclass (eq=True => unhashable): RetryPolicy is a structural protocol,
+    nothing requires policy objects to be hashable or weak-referenceable"""
+
+    kind: str
+    n: int
+
+    def next(self, elapsed_time, attempts, error, *, seed=None):
+        return HostilePolicy.next(self, elapsed_time, attempts, error, seed=seed)
+
+
+def _namespace_policy(kind, n):
+    inner = HostilePolicy(kind, n)
+    return types.SimpleNamespace(next=inner.next, kind=kind, n=n)
+
+
 def build_policy(ast):
     """retry policy AST -> real RetryPolicy (see vf.policy)."""
     from vf import policy
@@ -410,6 +430,11 @@ def build_policy(ast):
                 raise RuntimeError("retry predicate exploded")
 
             return rp.retry_policy(retry=rp.retry_if_exception(pred), wait=rp.wait_fixed(0), stop=rp.stop_after_attempt(ast["n"] + 1))
+        shape = ast.get("shape", "class")
+        if shape == "dataclass":
+            return DataclassPolicy(ast["hostile"], ast["n"])
+        if shape == "namespace":
+            return _namespace_policy(ast["hostile"], ast["n"])
         return HostilePolicy(ast["hostile"], ast["n"])
     return policy.build(ast)
 
